@@ -459,6 +459,8 @@ pub fn run(tier: &str) -> Result<Report, String> {
             deep.push(shape.replace("{n}", n));
         }
     }
+    // wild-card propositions needed inside a restricted scope and again outside it (valid inputs: labels p and d are present)
+    deep.extend(crate::formulas::wildcard_count_texts());
     for s in &deep {
         rep.evaluations += 4 * 25;
         let bad = check_string(&env, s, &[0, 1, 2, 3], &mixed);
